@@ -359,7 +359,9 @@ def check_data_gate(ctx):
     # the reject message that is sent is the one built
     if rej_ctor and rej_send:
         built_vars = {t.id for n, c in rej_ctor if isinstance(n.ast, ast.Assign) for t in n.ast.targets if isinstance(t, ast.Name)}
-        sends_built = any(any(call_name(c) == "self.send_message" and c.args and norm(c.args[0]) in built_vars for c in n.calls) or any(call_name(c) == "self.send_reject_rsp" for c in n.calls) for n in rej_send)
+        fnode = cfg.func if hasattr(cfg, "func") else f.node
+        sends_built = any(any(call_name(c) == "self.send_message" and c.args and (norm(c.args[0]) in built_vars or "HsmsRejectReqHeader(" in rules.expand(fnode, c.args[0])) for c in n.calls)
+                          or any(call_name(c) == "self.send_reject_rsp" for c in n.calls) for n in rej_send)
         ctx.ob("C05.P2", q, sends_built, "the built Reject message is the one sent" if sends_built else "the message passed to send_message is not the built Reject", key="reject-sent", where=f.where)
     # X1: nothing that can raise before gate / deliveries / reject outside a broad try
     untrusted = []
